@@ -43,6 +43,10 @@ class BodyError(Exception):
     pass
 
 
+BODY_EXC = {'BodyError': BodyError, 'SystemExit': SystemExit, 'KeyboardInterrupt': KeyboardInterrupt}
+REUSE_MODE = 0o611
+
+
 def body_plan(kind):
     if kind == 'none':
         return []
@@ -54,6 +58,10 @@ def body_plan(kind):
         return [('write', 'partial\n'), ('raise',), ('write', 'never\n')]
     if kind == 'large_raises':
         return [('write', 'M' * BIG), ('raise',)]
+    if kind == 'sysexit':       # the interpreter's own exit paths are not ordinary exceptions
+        return [('write', 'partial\n'), ('raise', 'SystemExit'), ('write', 'never\n')]
+    if kind == 'kbint':
+        return [('write', 'partial\n'), ('raise', 'KeyboardInterrupt')]
     raise AssertionError(kind)
 
 
@@ -77,6 +85,28 @@ def configs(tier):
                                                     'rm_part_on_exc': rm_part, 'text_mode': text, 'file_perms': perms,
                                                     'umask': umask, 'dest_present': dest, 'part_present': part,
                                                     'body': body})
+    base = {'overwrite': True, 'overwrite_part': False, 'rm_part_on_exc': True, 'text_mode': False, 'file_perms': None,
+            'umask': 0o022, 'dest_present': True, 'part_present': False, 'body': 'small'}
+    # the body leaves through SystemExit / KeyboardInterrupt (sys.exit(), Ctrl-C) after a partial write
+    for body in ('sysexit', 'kbint'):
+        for text in (False, True):
+            for dest in (False, True):
+                for rm_part in (True, False):
+                    for overwrite in (True, False):
+                        out.append(dict(base, body=body, text_mode=text, dest_present=dest, rm_part_on_exc=rm_part,
+                                        overwrite=overwrite))
+    # an explicit mode of 0 is a requested mode, not "no mode given"
+    for umask in (0o022, 0):
+        for dest in (False, True):
+            for body in ('small', 'raises'):
+                out.append(dict(base, file_perms=0, umask=umask, dest_present=dest, body=body))
+    # one AtomicSaver object used for two saves in a row (the destination is chmod-ed to 0o611 in between): the second
+    # save is the one explored
+    for perms in (None, 0o600):
+        for umask in (0o022, 0o077):
+            for dest in (False, True):
+                for body in ('small', 'large', 'raises'):
+                    out.append(dict(base, file_perms=perms, umask=umask, dest_present=dest, body=body, reuse=True))
     return out
 
 
@@ -88,7 +118,10 @@ class Scenario:
         self.plan = body_plan(cfg['body'])
         self.new = new_content(self.plan)
         self.body_raises = any(st[0] == 'raise' for st in self.plan)
+        self.body_exc = BODY_EXC[next((st[1] if len(st) > 1 else 'BodyError') for st in self.plan if st[0] == 'raise')] \
+            if self.body_raises else None
         self.other_created = False
+        self.before = None
 
     def prepare(self):
         shutil.rmtree(self.d, ignore_errors=True)
@@ -144,15 +177,30 @@ class Scenario:
                   'overwrite_part': cfg['overwrite_part'], 'rm_part_on_exc': cfg['rm_part_on_exc']}
             if cfg['file_perms'] is not None:
                 kw['file_perms'] = cfg['file_perms']
+            saver = fileutils.AtomicSaver(self.dest, **kw)
+            if cfg.get('reuse'):
+                # first save through the same object, undisturbed and unobserved; then the destination's mode changes
+                env.closed = True
+                try:
+                    with saver as f0:
+                        f0.write('first save\n' if cfg['text_mode'] else b'first save\n')
+                    os.chmod(self.dest, REUSE_MODE)
+                except Exception as e:      # only possible on a retry after a failed run (e.g. a part file was left)
+                    self.before = (stat_of(self.dest), stat_of(self.part))
+                    return e
+                env.closed = False
+            self.before = (stat_of(self.dest), stat_of(self.part))
             try:
-                with fileutils.atomic_save(self.dest, **kw) as f:
+                with saver as f:
                     for st in self.plan:
                         if st[0] == 'write':
                             f.write(st[1] if cfg['text_mode'] else st[1].encode('utf-8'))
                         elif st[0] == 'raise':
-                            raise BodyError('body failed')
+                            raise self.body_exc('body failed')
                 return None
-            except Exception as e:
+            except envfaults.Crash:
+                raise
+            except BaseException as e:      # noqa - SystemExit / KeyboardInterrupt bodies are part of the alphabet
                 return e
         finally:
             os.umask(old_umask)
@@ -188,7 +236,7 @@ def judge(sc, env, exc, before, retry=True):
                     and len(ev['args']) > 1 and ev['args'][1] == sc.dest for ev in log)
     raised_faults = [a for a in fired if a[0] == 'raise']
     other = sc.other_created
-    refused_expected = (not cfg['overwrite'] and (cfg['dest_present'] or other)) or \
+    refused_expected = (not cfg['overwrite'] and (dest0 is not None or other)) or \
                        (cfg['part_present'] and not cfg['overwrite_part'])
     # expected destination when the save did not complete
     if other:
@@ -200,7 +248,7 @@ def judge(sc, env, exc, before, retry=True):
     if exc is None:
         # completed: new content, right permissions, no part file
         if sc.body_raises:
-            out.append(('body exception swallowed', 'BodyError propagates', 'no exception'))
+            out.append(('body exception swallowed', '%s propagates' % sc.body_exc.__name__, 'no exception'))
         if refused_expected and not (other and cfg['overwrite']):
             out.append(('refusal missing', 'OSError (overwrite disabled / part file exists)', 'save completed'))
         if dest1 is None or dest1[1] != sc.new:
@@ -211,11 +259,11 @@ def judge(sc, env, exc, before, retry=True):
                 want = {cfg['file_perms']}
             elif any(a[0] == 'raise' and ev_name == 'stat' for (ev_name, a) in
                      [(env.points[i][0], a) for i, a in env.fired]):
-                want = {0o666 & ~cfg['umask'], OLD_MODE if cfg['dest_present'] else 0o666 & ~cfg['umask']}
+                want = {0o666 & ~cfg['umask'], dest0[0] if dest0 is not None else 0o666 & ~cfg['umask']}
             elif other:
                 want = {OTHER_MODE, 0o666 & ~cfg['umask']}
-            elif cfg['dest_present']:
-                want = {OLD_MODE}
+            elif dest0 is not None:
+                want = {dest0[0]}           # the mode of the file it replaces
             else:
                 want = {0o666 & ~cfg['umask']}
             if dest1[0] not in want:
@@ -224,8 +272,8 @@ def judge(sc, env, exc, before, retry=True):
             out.append(('part file left after a completed save', None, part1[1][:30]))
         return out
     # the caller saw an exception
-    if sc.body_raises and not fired and not refused_expected and not isinstance(exc, BodyError):
-        out.append(('body exception replaced', 'BodyError', type(exc).__name__))
+    if sc.body_raises and not fired and not refused_expected and type(exc) is not sc.body_exc:
+        out.append(('body exception replaced', sc.body_exc.__name__, type(exc).__name__))
     if published:
         # the fault hit after publication (e.g. unlink(src) after link): destination legitimately holds the new content
         if dest1 is None or dest1[1] != sc.new:
@@ -294,8 +342,9 @@ def run_config(task):
 
     def run(env):
         sc.prepare()
-        state['before'] = (stat_of(sc.dest), stat_of(sc.part))
-        return sc.run(env)
+        exc = sc.run(env)
+        state['before'] = sc.before
+        return exc
 
     def on_exec(env, exc):
         faults = fault_label(env)
@@ -349,10 +398,9 @@ def replay(ctx, data):
         case = data['case']
         sc = Scenario(case['config'], os.path.join(base, 'r'))
         sc.prepare()
-        before = (stat_of(sc.dest), stat_of(sc.part))
         env = envfaults.Env(case['script'], sc.menu)
         exc = sc.run(env)
         return ['%s (faults %s): expected %r observed %r' % (w, fault_label(env), e, o)
-                for w, e, o in judge(sc, env, exc, before)]
+                for w, e, o in judge(sc, env, exc, sc.before)]
     finally:
         shutil.rmtree(base, ignore_errors=True)
